@@ -82,7 +82,7 @@ def do_analysis_sweep(ex, idx, op):
     seen = set()
     n_done = 0
     saved_budget = w.budget
-    w.budget = min(w.budget, 3_000_000)   # one small text: a fraction of a whole scan's budget
+    w.budget = min(w.budget, 1_500_000)   # one small text: a fraction of a whole scan's budget
     for a in args:
         if kind == "misc":
             k2, a2 = MISC[a]
